@@ -149,7 +149,11 @@ func main() {
 					for k := 1; k <= len(reqs); k++ {
 						resp, err := st.Recv()
 						if err != nil {
-							errs <- fmt.Errorf("stream %d recv %d: %w", s, k, err)
+							// the server failed a request of a healthy single-node shard: recorded as what the
+							// client saw (no behaviour of WritePipe has such a response)
+							mu.Lock()
+							hist = append(hist, event{Ev: "recv", S: s, K: k, Ver: -1, Status: "ERROR: " + err.Error()})
+							mu.Unlock()
 							return
 						}
 						e := event{Ev: "recv", S: s, K: k, Ver: -1}
@@ -187,8 +191,7 @@ func main() {
 					hist = append(hist, e) // before the request leaves: it cannot be applied earlier than this line
 					mu.Unlock()
 					if err := st.Send(req); err != nil {
-						errs <- fmt.Errorf("stream %d send: %w", s, err)
-						return
+						break // the stream was ended by the server: the receiver records why
 					}
 				}
 				<-done
